@@ -189,6 +189,22 @@ def run(ctx):
               "per frame: force_matrices[t].set_velocity_matrix(mesh, b_matrix='velocity', adimensional_velocity=True)[1]",
               f"system velocity per frame is {T.show(T.alpha(r))[:300]}")
 
+    # the value is read from a matrix assembled for this frame in this call, under the angle limit given
+    bc = [e for e in sh.calls() if e.target == "forsys.forsys.ForSys.build_force_matrix"]
+    okb = False
+    if len(bc) == 1 and r[0] == "map":
+        e = bc[0]
+        lp = e.loops()
+        kw = dict(e.kw)
+        when_ = kw.get("when", e.args[0] if e.args else None)
+        okb = e.recv == SELF and len(lp) == 1 and not e.conds() and when_ == ("bv", lp[0][1]) and kw.get("angle_limit") == T.sym("angle_limit") \
+            and T.alpha(lp[0][2]) == T.alpha(r[3])
+    ctx.check(okb, "ALIGN", f"{h.qualname} / ALIGN / every reported frame's matrix is rebuilt under the given angle limit before it is read", ctx.where(h),
+              "for time in interval: build_force_matrix(when=time, angle_limit=angle_limit), unconditionally",
+              "the reported system velocity can come from a matrix assembled by an earlier call (another angle limit, another junction set): "
+              f"build calls {[(T.show(T.alpha(e.args))[:60], [T.show(c)[:80] for c in e.conds()]) for e in bc]}")
+    rules.fresh_build(ctx, "force")
+
     # ------------------------------------------------------------------ solve uses that rhs
     sv = repo.func(f"{FM}.solve")
     ctx.touch(sv)
